@@ -23,10 +23,8 @@ theorem SameOrEnq.toChanStep {c c'} (h : SameOrEnq c c') : ChanStep c c' := by
   · exact .same h
   · exact .enq e hrx h
 
-theorem SameOrEnq.of_submit {s s' : AState} {pl path tok} (h : s.submit pl path tok = some s') :
-    SameOrEnq s.chan s'.chan := by
-  obtain ⟨hrx, rfl⟩ := submit_some h
-  exact .inr ⟨_, hrx, rfl⟩
+theorem SameOrEnq.of_push {s : AState} {pl path tok} (h : s.chan.rx = true) :
+    SameOrEnq s.chan (s.push pl path tok).chan := .inr ⟨_, h, rfl⟩
 
 @[simp] theorem beginWait_chan (s : AState) (o h k j) : (s.beginWait o h k j).chan = s.chan := by
   unfold beginWait; split
@@ -36,20 +34,13 @@ theorem SameOrEnq.of_submit {s s' : AState} {pl path tok} (h : s.submit pl path 
 theorem stepBegin_chan {w s o h k s'} (hs : stepBegin w s o h k = some s') :
     SameOrEnq s.chan s'.chan := by
   unfold stepBegin at hs
-  split at hs
-  · simp at hs
-  · split at hs
-    · simp at hs
-    · simp only at hs
-      split at hs
-      · simp at hs; subst hs; exact .inl rfl
-      · split at hs
-        · simp at hs; subst hs; exact .inl (by simp)
-        · split at hs
-          · simp at hs; subst hs; exact .inl rfl
-          · simp at hs; subst hs
-            rename_i hsub
-            simpa using SameOrEnq.of_submit hsub
+  (repeat' (split at hs)) <;>
+    (first
+      | (simp at hs; done)
+      | (simp at hs; subst hs; first
+          | exact .inl rfl
+          | (refine .inl ?_; simp; done)
+          | (simp only [beginWait_chan]; apply SameOrEnq.of_push; assumption)))
 
 @[simp] theorem retEffect_chan (s : AState) (r) : (s.retEffect r).chan = s.chan := by
   unfold retEffect
@@ -92,12 +83,13 @@ theorem stepDrop_chan {s h s'} (hs : stepDrop s h = some s') : s'.chan = s.chan 
 theorem stepSignal_chan {w s h pl path ok s'} (hs : stepSignal w s h pl path ok = some s') :
     SameOrEnq s.chan s'.chan := by
   unfold stepSignal at hs
-  repeat' (split at hs)
-  all_goals first
-    | (simp at hs; done)
-    | (simp at hs; subst hs; first
-        | exact .inl rfl
-        | (apply SameOrEnq.of_submit; assumption))
+  (repeat' (split at hs)) <;>
+    (first
+      | (simp at hs; done)
+      | (simp at hs; subst hs; first
+          | exact .inl rfl
+          | (apply SameOrEnq.of_push; assumption)
+          | (apply SameOrEnq.of_push; simp_all)))
 
 /-- split everything in `hs`, discharge dead branches, close the rest by the given closers -/
 macro "frame_crush" hs:ident : tactic => `(tactic|
@@ -107,14 +99,15 @@ macro "frame_crush" hs:ident : tactic => `(tactic|
      | (simp at $hs:ident; subst $hs:ident; first
          | exact Or.inl rfl
          | (refine Or.inl ?_; simp; done)
-         | ((try simp only [setTimer_chan]); apply SameOrEnq.of_submit; assumption)
+         | ((try simp only [setTimer_chan]); apply SameOrEnq.of_push; assumption)
+         | ((try simp only [setTimer_chan]); apply SameOrEnq.of_push; simp_all; done)
          | (simp; done)
          | rfl))))
 
 theorem stepQuery_chan {w s h b s'} (hs : stepQuery w s h b = some s') : s'.chan = s.chan := by
   unfold stepQuery at hs; frame_crush hs
 
-theorem stepCbBegin_chan {s cb s'} (hs : stepCbBegin s cb = some s') :
+theorem stepCbBegin_chan {w s cb s'} (hs : stepCbBegin w s cb = some s') :
     ChanStep s.chan s'.chan := by
   unfold stepCbBegin at hs
   split at hs
@@ -131,8 +124,8 @@ theorem stepCbBegin_chan {s cb s'} (hs : stepCbBegin s cb = some s') :
     · split at hs <;> simp at hs; subst hs; exact .same rfl
     · simp at hs
   · split at hs <;> simp at hs; subst hs; exact .same rfl
-  · split at hs <;> simp at hs; subst hs; exact .same rfl
-  · simp at hs; subst hs; exact .same rfl
+  · split at hs <;> simp at hs; subst hs; exact .same (by simp)
+  · simp at hs; subst hs; exact .same (by simp)
   · simp at hs; subst hs; exact .same rfl
   · simp at hs
 
